@@ -31,6 +31,10 @@ fn main() {
         println!("INCONCLUSIVE property={id} watchdog after {limit}s");
         std::process::exit(2);
     });
+    if id == "C05" && mode == "child" {
+        // child side of the cross-process comparison of C05
+        std::process::exit(props::c05::child(args.get(3).map(String::as_str).unwrap_or("")));
+    }
     let session = Session::new(id, tier, seed as u64, root);
     let code = match mode {
         "replay" => {
